@@ -10,25 +10,11 @@ VAR = "gene.variants.VariantInterval"
 
 
 def variant(S, name="v"):
-    """VariantInterval(vs, ve, alt) without parent.  Symbolically a record with the fields the constructor stores
-    (assumed constructor contract: start/end/_genomic_starts/_genomic_ends/_strand=PLUS/sequence); natively the real
-    constructor."""
+    """VariantInterval(vs, ve, alt) without parent, built by the REAL constructor (symbolically executed)."""
     vs, ve = S.int(name + "_start"), S.int(name + "_end")
     alt = S.symstr(name + "_alt", "ACGTN")
     S.assume(And(0 <= vs, vs < ve))
-    if S.mode == "native":
-        return S.new(VAR, vs, ve, alt, "variant"), vs, ve, len(alt)
-    from pyvc.values import Obj
-    e = S.e
-    seq = S.new(SEQUENCE, alt, S.enum_const(ALPHABET, "NT_STRICT_UNKNOWN"), validate_alphabet=False)
-    plus = S.enum_const(STRAND, "PLUS")
-    loc = S.new(SINGLE, vs, ve, plus)
-    cls = e.repo.find(VAR)
-    obj = Obj(cls, dict(_location=loc, _parent_or_seq_chunk_parent=None, sequence=seq, variant_type="variant",
-                        phase_block=None, variant_name=None, variant_id=None, variant_guid=None, start=vs, end=ve,
-                        genomic_start=vs, genomic_end=ve, _genomic_starts=[vs], _genomic_ends=[ve], _strand=plus,
-                        _alternative_sequence=None, _parent_with_alternative_sequence=None))
-    return obj, vs, ve, slen(alt)
+    return S.new(VAR, vs, ve, alt, "variant"), vs, ve, slen(alt)
 
 
 class LiftSingle(Case):
@@ -125,14 +111,7 @@ class CollectionLiftSingle(Case):
         v2, vs2, ve2, l2 = variant(S, "v2")
         S.assume(ve1 <= vs2)
         loc = single(S, "loc")
-        if S.mode == "native":
-            col = S.new(VCOL, [v1, v2])
-        else:
-            from pyvc.values import Obj
-            plus = S.enum_const(STRAND, "PLUS")
-            col = Obj(S.e.repo.find(VCOL), dict(variant_intervals=[v1, v2], start=vs1, end=ve2,
-                                                _location=S.new(SINGLE, vs1, ve2, plus),
-                                                _parent_or_seq_chunk_parent=None))
+        col = S.new(VCOL, [v1, v2])
         return NS(col=col, loc=loc, s=loc.start, e=loc.end, vs1=vs1, ve1=ve1, d1=l1 - (ve1 - vs1),
                   vs2=vs2, ve2=ve2, d2=l2 - (ve2 - vs2))
 
@@ -148,6 +127,77 @@ class CollectionLiftSingle(Case):
     def observe(self, r):
         from .c02_single import obs_loc
         return obs_loc(r)
+
+
+class LiftCompound(Case):
+    """_lift_over_chromosome_location_compound_interval on n separated blocks, all coordinates: for a variant lying
+    wholly inside one block or wholly outside all of them, the result covers exactly the edited image of the blocks
+    (free position q on the alternative haplotype); blocks deleted entirely disappear; nothing left -> EmptyLocation."""
+    props = ("C13",)
+    func = VAR + "._lift_over_chromosome_location_compound_interval"
+
+    def __init__(self, n, through_public=False):
+        self.n, self.public = n, through_public
+        meth = "lift_over_location" if through_public else "_lift_over_chromosome_location_compound_interval"
+        self.name = f"VariantInterval.{meth}[{n} blocks, all coordinates]"
+        self.call = f"v.{meth}(loc)"
+        if through_public:
+            self.func = VAR + ".lift_over_location"
+        self.ensures = {
+            "covers-exactly-the-edited-image": lambda i, r: Implies(
+                _placed_all(i), Iff(_covers(r, i.q), Or(*[And(a <= i.q, i.q < b) for a, b in _image(i)]))),
+            "empty-iff-everything-deleted": lambda i, r: Implies(
+                _placed_all(i), Iff(class_name(r) == "_EmptyLocation", And(*[a >= b for a, b in _image(i)]))),
+            "well-formed": lambda i, r: Implies(_placed_all(i), _wf(r)),
+            "strand-kept": lambda i, r: class_name(r) == "_EmptyLocation" or (
+                enum_eq(r.strand, i.strand) if hasattr(r.strand, "idx") else r.strand is i.strand),
+        }
+
+    def inputs(self, S):
+        from .gene_common import block_lists, strand_of
+        v, vs, ve, l = variant(S)
+        strand = strand_of(S, "strand")
+        starts, ends = block_lists(S, "loc", self.n, allow_adjacent=False)
+        loc = S.new(COMPOUND, starts, ends, strand)
+        return NS(v=v, vs=vs, ve=ve, l=l, d=l - (ve - vs), loc=loc, starts=starts, ends=ends, q=S.int("q"),
+                  strand=strand)
+
+    def samples(self, rng):
+        from .gene_common import sample_blocks
+        d = sample_blocks(rng, "loc", self.n, gap=(1, 2, 3))
+        vs = rng.randint(0, 14)
+        d.update(v_start=vs, v_end=vs + rng.randint(1, 3), v_alt="".join(rng.choice("ACGT") for _ in range(rng.randint(0, 4))),
+                 strand=rng.choice(["PLUS", "MINUS"]), q=rng.randint(0, 20))
+        return d
+
+    def observe(self, r):
+        from .c02_single import obs_loc
+        return obs_loc(r)[:3]
+
+
+def _placed_all(i):
+    """the variant lies wholly inside one block or wholly outside all of them."""
+    inside = Or(*[And(s <= i.vs, i.ve <= e) for s, e in zip(i.starts, i.ends)])
+    outside = And(*[Or(i.ve <= s, i.vs >= e) for s, e in zip(i.starts, i.ends)])
+    return Or(inside, outside)
+
+
+def _image(i):
+    """edited image of each block (edit model of the module docstring), as half-open intervals (possibly empty)."""
+    out = []
+    for s, e in zip(i.starts, i.ends):
+        out.append((s + If(i.ve <= s, i.d, 0), e + If(Or(i.ve <= s, And(s <= i.vs, i.ve <= e)), i.d, 0)))
+    return out
+
+
+def _covers(r, q):
+    from .c02_single import covers_pos
+    return covers_pos(r, q)
+
+
+def _wf(r):
+    from .c02_single import wf_result
+    return wf_result(r)
 
 
 class AlternativeSequence(Case):
@@ -244,7 +294,8 @@ def _edit_model(i, k):
     return out
 
 
-CASES = [LiftSingle(), CollectionLiftSingle(), AlternativeSequence(False), AlternativeSequence(True)]
+CASES = [LiftSingle(), CollectionLiftSingle(), AlternativeSequence(False), AlternativeSequence(True),
+         LiftCompound(2), LiftCompound(3), LiftCompound(2, through_public=True)]
 
 CANARIES = [
     dict(name="lift-over: insertion abutting block start", props=("C13",), file="inscripta/biocantor/gene/variants.py",
